@@ -1,13 +1,18 @@
 import Model.Meth
 import Model.MethStr
+import Model.MethStore
 import Drivers.Common
 /-! `vm_c15`: line protocol over `Model.Meth` / `Model.MethStr`.
 
 Values are written as space separated tokens:
   `n` null · `T` / `F` · `i<int>` · `s<hex of the UTF-8 bytes>` · `[` … `]`
 
-  arr <TAB> method <TAB> receiver elements <TAB> arguments <TAB> callback id | -
+  arr <TAB> method <TAB> receiver elements <TAB> arguments <TAB> callback id | - [<TAB> chained in-place method]
       → `ok <ret> | <receiver afterwards>`  (forEach: `… | <calls>` appended)  or `crash`
+      (with a chained method: <ret> is what that method returns on the first call's result)
+  fx <TAB> method <TAB> receiver <TAB> arguments after the callback <TAB> decision <TAB> trace mode n|a|r
+     <TAB> receiver effects `at:op:j,…` | - <TAB> chained method | -
+      → `ok <ret> | <receiver afterwards> | <invocations>`  — `Model.MethStore.run .fresh` with an effectful callback
   str <TAB> method <TAB> hex of the receiver <TAB> arguments
       → `int n` · `bool T|F` · `bytes <hex>` · `texts <hex>,<hex>…` · `crash` · `unsupported`
 -/
@@ -128,31 +133,31 @@ def cb4Of (id : String) : Option Cb4 :=
 def showCalls (cs : List CallEv) : String :=
   showVals (cs.map (fun c => Val.list [c.el, .int c.idx, .list c.arr]))
 
-def arrCall (m : String) (xs args : List Val) (cb : String) : String :=
-  let withPred (k : List Val → Pred → Res) : String :=
+def arrRes (m : String) (xs args : List Val) (cb : String) : Except String (Res × Option (List CallEv)) :=
+  let withPred (k : List Val → Pred → Res) : Except String (Res × Option (List CallEv)) :=
     match predOf cb with
-    | some p => showRes (k xs p)
-    | none => "bad-callback"
-  let withCb (k : List Val → Cb → Res) : String :=
+    | some p => .ok (k xs p, none)
+    | none => .error "bad-callback"
+  let withCb (k : List Val → Cb → Res) : Except String (Res × Option (List CallEv)) :=
     match cbOf cb with
-    | some f => showRes (k xs f)
-    | none => "bad-callback"
+    | some f => .ok (k xs f, none)
+    | none => .error "bad-callback"
   match m with
-  | "push" => showRes (push xs args)
-  | "pop" => showRes (pop xs)
-  | "shift" => showRes (shift xs)
-  | "unshift" => showRes (unshift xs args)
-  | "slice" => showRes (slice xs args)
-  | "splice" => showRes (splice xs args)
-  | "concat" => showRes (concat xs args)
-  | "join" => showRes (join xs args)
-  | "reverse" => showRes (reverse xs)
-  | "sort" => showRes (sort xs)
-  | "indexOf" => showRes (indexOf xs args)
-  | "includes" => showRes (includes xs args)
-  | "flat" => showRes (flat xs args)
-  | "length" => showRes (length xs)
-  | "forEach" => let (r, cs) := forEach xs; showRes r ++ " |" ++ showCalls cs
+  | "push" => .ok (push xs args, none)
+  | "pop" => .ok (pop xs, none)
+  | "shift" => .ok (shift xs, none)
+  | "unshift" => .ok (unshift xs args, none)
+  | "slice" => .ok (slice xs args, none)
+  | "splice" => .ok (splice xs args, none)
+  | "concat" => .ok (concat xs args, none)
+  | "join" => .ok (join xs args, none)
+  | "reverse" => .ok (reverse xs, none)
+  | "sort" => .ok (sort xs, none)
+  | "indexOf" => .ok (indexOf xs args, none)
+  | "includes" => .ok (includes xs args, none)
+  | "flat" => .ok (flat xs args, none)
+  | "length" => .ok (length xs, none)
+  | "forEach" => let (r, cs) := forEach xs; .ok (r, some cs)
   | "map" => withCb map
   | "flatMap" => withCb flatMap
   | "filter" => withPred filter
@@ -162,9 +167,142 @@ def arrCall (m : String) (xs args : List Val) (cb : String) : String :=
   | "some" => withPred someP
   | "reduce" =>
     match cb4Of cb with
-    | some f => showRes (reduce xs f args)
-    | none => "bad-callback"
-  | _ => "bad-method"
+    | some f => .ok (reduce xs f args, none)
+    | none => .error "bad-callback"
+  | _ => .error "bad-method"
+
+/-- arguments the harness writes for a chained in-place method -/
+def chainArgs (op : String) : List Val :=
+  match op with
+  | "push" => [.int 9]
+  | "unshift" => [.int 9]
+  | "splice" => [.int 0, .int 1]
+  | _ => []
+
+/-- `$x->m(…)->op(…)`: `op` works on the value the first call returned; the receiver is what the first call left -/
+def chained (r : Res) (op : String) : Except String Res :=
+  if op == "-" || op == "" then .ok r else
+  match r with
+  | .crash => .ok .crash
+  | .ok ⟨.list l, recv⟩ =>
+    match arrRes op l (chainArgs op) "-" with
+    | .ok (.ok o, _) => .ok (.ok ⟨o.ret, recv⟩)
+    | .ok (.crash, _) => .ok .crash
+    | .error e => .error e
+  | .ok _ => .error "unsupported"
+
+def arrCall (m : String) (xs args : List Val) (cb chain : String) : String :=
+  match arrRes m xs args cb with
+  | .error e => e
+  | .ok (r, cs) =>
+    match chained r chain with
+    | .error e => e
+    | .ok r' =>
+      match cs with
+      | some cs => showRes r' ++ " |" ++ showCalls cs
+      | none => showRes r'
+
+/-! ### traced callbacks with effects (`Model.MethStore`) -/
+section Fx
+open Model.MethStore
+
+def kindOf (m : String) : Option Kind :=
+  match m with
+  | "forEach" => some .forEach | "map" => some .map | "filter" => some .filter | "find" => some .find
+  | "findIndex" => some .findIndex | "every" => some .every | "some" => some .someP
+  | "flatMap" => some .flatMap | "reduce" => some .reduce
+  | _ => none
+
+def sameVal (a b : Val) : Bool := showVal a == showVal b
+
+def atOr (a : List Val) (k : Int) : Val :=
+  if k < 0 then .null else match a[k.toNat]? with | some v => v | none => .null
+
+/-- what the harness' traced callback returns (same ids as `decPHP` / `decGo` in harness/c15/alias.go) -/
+def decOf (dec : String) : Option (Inv → Val) :=
+  match dec.splitOn ":" with
+  | ["mask", bits] => some (fun inv => .bool (bits.toList[inv.idx]? == some '1'))
+  | ["first"] => some (fun inv =>
+      match scanFrom (asString inv.el) 0 inv.arr with
+      | some k => .bool (k == inv.idx)
+      | none => .bool false)
+  | ["unseen"] => some (fun inv => .bool (scanFrom (asString inv.el) 0 (inv.arr.take inv.idx)).isNone)
+  | ["gt0"] => some (fun inv =>
+      match inv.el, inv.arr.head? with
+      | .int x, some (.int y) => .bool (decide (x > y))
+      | _, _ => .bool false)
+  | ["ne2"] => some (fun inv => .bool (inv.idx < 2 || !sameVal (atOr inv.arr (inv.idx - 2)) inv.el))
+  | ["eqnext"] => some (fun inv => .bool (inv.idx + 1 < inv.arr.length && sameVal (atOr inv.arr (inv.idx + 1)) inv.el))
+  | ["self"] => some (fun inv => .bool (sameVal (atOr inv.arr inv.idx) inv.el))
+  | ["islast"] => some (fun inv => .bool (inv.idx + 1 == inv.arr.length))
+  | ["e"] => some (fun inv => inv.el)
+  | ["cur"] => some (fun inv => inv.el)
+  | ["arr"] => some (fun inv => .list inv.arr)
+  | ["triple"] => some (fun inv => .list [inv.el, .int inv.idx, .list inv.arr])
+  | ["prev"] => some (fun inv => if inv.idx ≥ 1 then atOr inv.arr (inv.idx - 1) else .null)
+  | ["next"] => some (fun inv => atOr inv.arr (inv.idx + 1))
+  | ["ends"] => some (fun inv => .list [atOr inv.arr 0, atOr inv.arr (inv.arr.length - 1), .int inv.arr.length])
+  | ["len"] => some (fun inv => .int inv.arr.length)
+  | ["rev"] => some (fun inv => .list inv.arr.reverse)
+  | ["nest"] => some (fun inv => .list [inv.acc, inv.el, .int inv.idx, .list inv.arr])
+  | ["acc"] => some (fun inv => inv.acc)
+  | ["prevcur"] => some (fun inv => .list [if inv.idx ≥ 1 then atOr inv.arr (inv.idx - 1) else .null, inv.el, .int inv.arr.length])
+  | ["local"] => some (fun _ => .bool true)
+  | ["local1"] => some (fun _ => .bool true)
+  | ["void"] => some (fun _ => .null)
+  | ["none"] => some (fun _ => .null)
+  | ["-"] => some (fun _ => .null)
+  | _ => none
+
+def recvOf (r : Res) (dflt : List Val) : List Val :=
+  match r with
+  | .ok o => o.recv
+  | .crash => dflt
+
+/-- one effect of the callback on the receiver it reaches through the reference -/
+def applyOp (op : String) (j : Nat) (xs : List Val) : List Val :=
+  match op with
+  | "set" => if j < xs.length then xs.set j (.int 99) else xs
+  | "push" => recvOf (push xs [.int 98]) xs
+  | "pop" => recvOf (pop xs) xs
+  | "shift" => recvOf (shift xs) xs
+  | "unshift" => recvOf (unshift xs [.int 97]) xs
+  | "reverse" => recvOf (reverse xs) xs
+  | "sort" => recvOf (sort xs) xs
+  | "splice" => recvOf (splice xs [.int 0, .int 1]) xs
+  | "assign" => [.int 7]
+  | _ => xs
+
+def parseFx (s : String) : Option (List (Nat × String × Nat)) :=
+  if s == "-" then some [] else
+  (s.splitOn ",").mapM (fun t =>
+    match t.splitOn ":" with
+    | [a, op, j] => do
+        let a ← a.toNat?
+        let j ← j.toNat?
+        some (a, op, j)
+    | _ => none)
+
+def fxCallback (d : Inv → Val) (fx : List (Nat × String × Nat)) : ECb := fun inv recv =>
+  (d inv, fx.foldl (fun r f => if f.1 == inv.idx then applyOp f.2.1 f.2.2 r else r) recv)
+
+def showEv (red : Bool) (mode : String) (ev : Ev) : Val :=
+  .list ((if red then [ev.inv.acc] else []) ++ [ev.inv.el, .int ev.inv.idx, .list ev.inv.arr]
+    ++ (if mode == "r" then [.list ev.recv] else []))
+
+def fxCall (m : String) (xs args : List Val) (dec mode fxs chain : String) : String :=
+  match kindOf m, decOf dec, parseFx fxs with
+  | some kind, some d, some fx =>
+    match run .fresh kind (fxCallback d fx) xs args with
+    | none => "crash"
+    | some (v, st, t) =>
+      match chained (.ok ⟨v, st.recv⟩) chain with
+      | .error e => e
+      | .ok r =>
+        showRes r ++ " |" ++ (if mode == "n" then "" else showVals (t.map (showEv (m == "reduce") mode)))
+  | _, _, _ => "bad-fx"
+
+end Fx
 
 open Model.MethStr in
 def showSRes : SRes → String
@@ -195,7 +333,15 @@ def handle (line : String) : String :=
   match line.splitOn "\t" with
   | ["arr", m, recv, args, cb] =>
     match parseVals recv, parseVals args with
-    | some xs, some as => arrCall m xs as cb
+    | some xs, some as => arrCall m xs as cb "-"
+    | _, _ => "bad-value"
+  | ["arr", m, recv, args, cb, chain] =>
+    match parseVals recv, parseVals args with
+    | some xs, some as => arrCall m xs as cb chain
+    | _, _ => "bad-value"
+  | ["fx", m, recv, args, dec, mode, fx, chain] =>
+    match parseVals recv, parseVals args with
+    | some xs, some as => fxCall m xs as dec mode fx chain
     | _, _ => "bad-value"
   | ["str", m, recv, args] =>
     match unhex recv, parseVals args with
